@@ -266,7 +266,7 @@ class Resolver:
                     for match in self.__glob(subnode, remainder):
                         if not any(match is other for other in matches):
                             matches.append(match)
-                except ChildResolverError:
+                except ResolverError:
                     pass
             return matches
 
